@@ -144,7 +144,7 @@ def popS (env : Env) (s : St) : R SVal :=
            let o := rec env code true s.log
            (match o.res with
             | .ok v => .ok (.val v) { stack := rest, log := o.log }
-            | .error a => .fail a o.log)
+            | .error a => .ok (.val (.err a.kind)) { stack := rest, log := o.log })
          | none => .ok (.val (.err .binding)) { s with stack := rest })
   | x :: rest => .ok x { s with stack := rest }
 
@@ -350,11 +350,11 @@ def invoke (recTop : Rec) (env : Env) (c : Callee) (this : Val) (args : List Val
        .ok () (pushV v { s with log := log }))
   | .user name f =>
     (match resolveArgs rec env args s.log with
-     | .error (a, l) => .fail a l
+     | .error (a, l) => .ok () (pushV (.err a.kind) { s with log := l })
      | .ok (vs, l) => .ok () (pushV (f.apply vs) { s with log := l ++ [{ name := name, this := this, args := vs }] }))
   | .builtin name =>
     (match resolveArgs rec env args s.log with
-     | .error (a, l) => .fail a l
+     | .error (a, l) => .ok () (pushV (.err a.kind) { s with log := l })
      | .ok (vs, l) =>
        match B.func name with
        | some f => .ok () (pushV (f this vs) { s with log := l })
@@ -378,25 +378,31 @@ def unop (f : Val → Val) (env : Env) (s : St) : R Unit :=
   | .fail a l => .fail a l
   | .ok v s1 => .ok () (pushV (f v) s1)
 
-/-- Collect `n` (key, value) pairs for MKDICT: key popped first, must be a string. -/
-def popEntries (env : Env) : Nat → St → R (List (Str × Val))
-  | 0, s => .ok [] s
+/-- Collect `n` (key, value) pairs for MKDICT: key popped first. All operands are taken; a key that is
+    not a string makes the result `none` (an error value is pushed instead of a map). -/
+def popEntries (env : Env) : Nat → St → R (Option (List (Str × Val)))
+  | 0, s => .ok (some []) s
   | n + 1, s =>
     match popV rec env s with
     | .fail a l => .fail a l
-    | .ok (.str k) s1 =>
-      (match popV rec env s1 with
-       | .fail a l => .fail a l
-       | .ok v s2 =>
-         match popEntries env n s2 with
-         | .fail a l => .fail a l
-         | .ok es s3 => .ok ((k, v) :: es) s3)
-    | .ok _ s1 => .fail (.err .value) s1.log
+    | .ok k s1 =>
+      match popV rec env s1 with
+      | .fail a l => .fail a l
+      | .ok v s2 =>
+        match popEntries env n s2 with
+        | .fail a l => .fail a l
+        | .ok es s3 =>
+          match k, es with
+          | .str key, some es' => .ok (some ((key, v) :: es')) s3
+          | _, _ => .ok none s3
 
-def concatStrs : List Val → Option Str
-  | [] => some []
-  | .str s :: rest => (concatStrs rest).map (s ++ ·)
-  | _ :: _ => none
+/-- `FMT`: concatenation of string segments; the first segment (in source order) that is an error value
+    fails the string with that error, any other non-string with a Runtime error. -/
+def concatStrs : List Val → Except ErrKind Str
+  | [] => .ok []
+  | .str s :: rest => (match concatStrs rest with | .ok r => .ok (s ++ r) | .error k => .error k)
+  | .err k :: _ => .error k
+  | _ :: _ => .error .runtime
 
 /-- Continue at `pc` after a stack-only operation. -/
 def liftNext (pc : Nat) (r : R Unit) : R Nat :=
@@ -458,7 +464,8 @@ def step (recTop : Rec) (env : Env) (len : Nat) (i : Instr) (pc : Nat) (s : St) 
   | .mkDict n =>
     (match popEntries rec env n s with
      | .fail a l => .fail a l
-     | .ok es s1 => .ok pc (pushV (.map (Map.ofList es.reverse)) s1))
+     | .ok (some es) s1 => .ok pc (pushV (.map (Map.ofList es.reverse)) s1)
+     | .ok none s1 => .ok pc (pushV (.err .value) s1))
   | .index => next (binop rec index env s)
   | .access =>
     (match popRaw s with
@@ -505,12 +512,12 @@ def step (recTop : Rec) (env : Env) (len : Nat) (i : Instr) (pc : Nat) (s : St) 
                else match env.getType fname with
                  | some (.type tn) =>
                    (match resolveArgs rec env args s2.log with
-                    | .error (a, l) => .fail a l
+                    | .error (a, l) => .ok pc (pushV (.err a.kind) { s2 with log := l })
                     | .ok (vs, l) => .ok pc (pushV (B.ctor tn vs) { s2 with log := l }))
                  | _ => .ok pc (pushV (.err .runtime) s2))
           | .type tn =>
             (match resolveArgs rec env args s2.log with
-             | .error (a, l) => .fail a l
+             | .error (a, l) => .ok pc (pushV (.err a.kind) { s2 with log := l })
              | .ok (vs, l) => .ok pc (pushV (B.ctor tn vs) { s2 with log := l }))
           | _ => .ok pc (pushV (.err .runtime) s2)))
   | .fmt n =>
@@ -518,8 +525,8 @@ def step (recTop : Rec) (env : Env) (len : Nat) (i : Instr) (pc : Nat) (s : St) 
      | .fail a l => .fail a l
      | .ok segs s1 =>
        match concatStrs segs.reverse with
-       | some str => .ok pc (pushV (.str str) s1)
-       | none => .fail (.err .runtime) s1.log)
+       | .ok str => .ok pc (pushV (.str str) s1)
+       | .error k => .ok pc (pushV (.err k) s1))
 
 /-- The instruction loop of one block. -/
 def loop (recTop : Rec) (env : Env) (code : List Instr) : Nat → Nat → St → R Unit
